@@ -17,6 +17,86 @@ from checks.C02 import profile
 CHECKER = "make -C coq Properties_C03.vo (coqc 8.16.1 kernel); coqc Properties_C03.v (Print Assumptions)"
 
 
+# ------------------------------------------------------------------ node names (BackendDiff.v)
+PRINT = [c for c in range(33, 127) if c != 47]
+
+
+def py_common(b):
+    """the documented common subset, written independently of the model: 1..32 printable characters, no '/', no blank
+    at either end, not '.'"""
+    return 1 <= len(b) <= 32 and all(32 <= c <= 126 and c != 47 for c in b) and b[0] != 32 and b[-1] != 32 and b != b"."
+
+
+def gen_names(rng, n):
+    out = [b".", b"..", b" " + b"a" * 32, b"\tab", b"a\x01b", b"a" * 32, b"a" * 33, b" a", b"a ", b"  a b  ", b"a/b", b"/",
+           b" ", b"\t", b" \t ", b"", b"a\t", b"a\n", b"\na", b"\xe9t\xe9", b"x" * 31 + b" ", b" " + b"x" * 31, b"a\x7f", b".a", b"a."]
+    for _ in range(n):
+        k = rng.random()
+        L = rng.choice([1, 2, 5, 12, 31, 32, rng.randint(1, 32)])
+        core = bytes(rng.choice(PRINT + [32, 32]) for _ in range(L))
+        if k < 0.55:
+            b = core.strip(b" ") or b"n"
+        elif k < 0.7:
+            b = b" " * rng.randint(0, 2) + core + b" " * rng.randint(0, 3)
+        elif k < 0.8:
+            b = bytes(rng.choice([9, 10, 13, 32]) for _ in range(rng.randint(1, 2))) + core
+        elif k < 0.9:
+            i = rng.randrange(len(core) + 1)
+            b = core[:i] + bytes([rng.choice([47, 1, 7, 27, 127, 128, 200, 255, 9])]) + core[i:]
+        else:
+            b = core + bytes(rng.choice(PRINT) for _ in range(rng.randint(1, 8)))       # may exceed 32
+        out.append(b)
+    return out
+
+
+def names_level(ck, dist):
+    """model (extracted adf_name / adfh_name) vs library on both back ends; property oracle: inside the common subset
+    both back ends accept and store exactly the name; returns the list of broken correspondences"""
+    exe = vlib.build_harness("c03_names", ["c03_names.c"])
+    vlib.build_modelrun("c03")
+    names = gen_names(ck.rng, 260 if ck.tier == "thorough" else 90)
+    script = []
+    for b in names:
+        h = b.hex() if b else "-"
+        script += ["create " + h, "rename " + h]
+    text = "\n".join(script) + "\n"
+    got, model = {}, {}
+    for be in ("adf", "hdf5"):
+        lines, outcome = vlib.run_impl(exe, text, args=[os.path.join(ck.work, "names_%s.cgns" % be), be], timeout=600)
+        got[be] = (lines, outcome)
+        model[be] = vlib.run_model("c03", text, args=[be])
+    corr = []
+    dist["names"] = {"total": len(names), "common": 0, "outside_common": 0, "backends_differ_outside_common": 0}
+    for i, op in enumerate(script):
+        b = bytes.fromhex(op.split()[1]) if op.split()[1] != "-" else b""
+        common = py_common(b)
+        a = got["adf"][0][i] if i < len(got["adf"][0]) else "(no output: %s)" % got["adf"][1]
+        h = got["hdf5"][0][i] if i < len(got["hdf5"][0]) else "(no output: %s)" % got["hdf5"][1]
+        if i % 2 == 0:
+            dist["names"]["common" if common else "outside_common"] += 1
+            ck.case(hashlib.sha1(op.encode()).hexdigest() if not common or len(b) in (1, 31, 32) else None,
+                    sample={"level": "names", "op": op, "adf": a, "hdf5": h})
+        ck.cov["traces_validated_against_impl"] += 2
+        if common:
+            want = "ok " + b.hex()
+            if a != want or h != want:
+                ck.violation({"level": "names", "op": op, "name": repr(b), "adf": a, "hdf5": h, "expected_on_both": want,
+                              "oracle": "a name of the documented common subset is accepted and stored unchanged by both back ends",
+                              "replay_hint": "echo '%s' | .build/h/c03_names /tmp/x.cgns adf|hdf5" % op})
+                return corr
+        elif a != h:
+            dist["names"]["backends_differ_outside_common"] += 1
+        for be, line in (("adf", a), ("hdf5", h)):
+            m = model[be][i] if i < len(model[be]) else "(none)"
+            if m != line and len(corr) < 5:
+                corr.append({"level": "names", "backend": be, "op": op, "model": m, "impl": line})
+    for be in ("adf", "hdf5"):
+        if got[be][1] != "ok":
+            ck.violation({"level": "names", "backend": be, "outcome": got[be][1],
+                          "oracle": "no sanitizer report / crash while validating a node name"})
+    return corr
+
+
 def run(ck):
     thorough = ck.tier == "thorough"
     vlib.build_impl()
@@ -68,6 +148,14 @@ def run(ck):
                       "difference": nodedb.equivalence_failure(rr) or f,
                       "third_party_TreeDB_says": {k: ("agrees" if v is None else v) for k, v in third.items()},
                       "oracle": "ADF vs HDF5 on the same program"})
+    corr = names_level(ck, dist) if not ck.violations else []
+    if corr and not ck.violations:
+        # the transcription of a validator no longer matches the code, and no name of the common subset misbehaves:
+        # look for a name on which the two back ends now disagree although both accept it (C03_names_same_when_both_accept)
+        ck.violation({"broken_correspondence": "BackendDiff.adf_name / adfh_name vs cgio_create_node / cgio_set_name",
+                      "first_differences": corr,
+                      "theorems_no_longer_tied": ["C03_names_agree", "C03_names_same_when_both_accept",
+                                                  "C03_adf_names_accepted_by_hdf5_except_dot"]}, nofail=True)
     if broken and not ck.violations:
         ck.violation({"broken_obligations": broken}, nofail=True)
     ck.extra["input_distribution"] = dist
